@@ -156,14 +156,14 @@ def same_value(a, b, depth=0):
     if isinstance(a, bitarray) and isinstance(b, bitarray):
         return T(a == b) if len(a) == len(b) else 0
     if isinstance(a, dict) and isinstance(b, dict):
-        if depth >= 2:
+        if depth >= 4:
             return 1 if len(a) == len(b) else 0          # configuration tables hanging off a result: same size is all that is compared
         if set(a) != set(b):
             return 0
         return AND(*[same_value(a[k], b[k], depth + 1) for k in a]) if a else 1
     if isinstance(a, enum.Enum) or isinstance(b, enum.Enum):
         return feq(a, b)
-    if hasattr(a, "__dict__") and not isinstance(a, type) and depth < 3:
+    if hasattr(a, "__dict__") and not isinstance(a, type) and depth < 6:
         if type(a) is not type(b):
             return 0
         acc = []
